@@ -24,11 +24,20 @@
 (* The predicates themselves (|A - g0| = c |g0|, A = g0 for c = 0,         *)
 (* A = (1+c) g0 on symmetric instances, A = 0 only if stationary) are      *)
 (* evaluated by the harness on the real output: predicate level.           *)
+(*                                                                         *)
+(* BADLY SCALED family (last section): J = D_r J0 D_c with rows / columns  *)
+(* scaled by powers of eps = 2^-P carried symbolically (EpsScale.tla: all  *)
+(* quantities are polynomials in eps, decisions by the sign rule, valid    *)
+(* for every P >= needP).  The same facts - mean, |g0|^2, d2, trace,       *)
+(* stationary, symmetric - are decided exactly although the singular       *)
+(* values of J are 2^P .. 4^P apart; on unscaled instances the symbolic    *)
+(* analysis must coincide with the integer one above (BSUnscaledAgrees).   *)
 (***************************************************************************)
-EXTENDS Integers, Sequences, FiniteSets, TLC, Json, IOUtils, Rat, IntMat
+EXTENDS Integers, Sequences, FiniteSets, TLC, Json, IOUtils, Rat, IntMat, EpsScale
 
 CONSTANTS Shapes,            \* family: set of codes 100 m + 10 n + e (all m x n matrices, entries -e..e)
-          UseFile            \* TRUE: the instances are the matrices listed in IOEnv.MATRIX_FILE
+          UseFile,           \* TRUE: the instances are the matrices listed in IOEnv.MATRIX_FILE
+          BSPick             \* badly scaled family: a matrix J0 is kept iff (BSHash(entries) + BSPick) % mod = 0
 
 MatSet(mm, nn, ee) == [1..mm -> [1..nn -> (0 - ee)..ee]]
 FileMats   == LET s == JsonDeserialize(IOEnv.MATRIX_FILE) IN {s[x] : x \in DOMAIN s}
@@ -82,7 +91,20 @@ Stationary(GG) == RIsZero(MinNormSq(GG))
 VARIABLES J, info, phase
 vars == <<J, info, phase>>
 
-Init == J \in Family /\ info = <<>> /\ phase = "new"
+\* ---- badly scaled family: shapes [m, n, e, mod] (overridden in the cfg of the badly scaled run), listed instances
+BSShapes         == {}
+BSShapesQuick    == {[m |-> 2, n |-> 2, e |-> 2, mod |-> 4], [m |-> 2, n |-> 3, e |-> 1, mod |-> 16],
+                     [m |-> 3, n |-> 2, e |-> 2, mod |-> 192], [m |-> 3, n |-> 3, e |-> 1, mod |-> 192]}
+BSShapesThorough == {[m |-> 2, n |-> 2, e |-> 2, mod |-> 1], [m |-> 2, n |-> 3, e |-> 1, mod |-> 2],
+                     [m |-> 3, n |-> 2, e |-> 2, mod |-> 48], [m |-> 3, n |-> 3, e |-> 1, mod |-> 48]}
+BSFile           == FALSE
+BSFileOn         == TRUE
+BSFileInsts      == IF BSFile THEN LET s == JsonDeserialize(IOEnv.BS_FILE) IN {s[x] : x \in DOMAIN s} ELSE {}
+BSHash(es)       == LET F[i \in 0..Len(es)] == IF i = 0 THEN 7 ELSE (F[i - 1] * 31 + es[i] + 3) % 10007 IN F[Len(es)]
+
+Init == \/ J \in Family /\ info = <<>> /\ phase = "new"
+        \/ \E sh \in BSShapes : J = <<>> /\ info = sh /\ phase = "bsbuild"            \* J: the entries chosen so far
+        \/ \E x \in BSFileInsts : J = x /\ info = <<>> /\ phase = "bsfile"
 
 Classify == /\ phase = "new"
             /\ LET G == Gram(J)
@@ -94,7 +116,19 @@ Classify == /\ phase = "new"
                         cs |-> CValues]
             /\ phase' = "done"
             /\ UNCHANGED J
-Next == Classify
+BSExtend == /\ phase = "bsbuild" /\ Len(J) < info.m * info.n
+            /\ \E x \in (0 - info.e)..info.e : J' = Append(J, x)
+            /\ UNCHANGED <<info, phase>>
+\* every scaling of a kept matrix (scaled rows / columns last, one row and one column unscaled), the unscaled one
+\* included (BSUnscaledAgrees; not exported)
+BSSolve == /\ phase = "bsbuild" /\ Len(J) = info.m * info.n
+           /\ (BSHash(J) + BSPick) % info.mod = 0
+           /\ \E r \in EsStep(info.m), g \in EsStep(info.n) :
+                 info' = EsAnalyse([J0 |-> [i \in 1..info.m |-> [j \in 1..info.n |-> J[(i - 1) * info.n + j]]],
+                                    rho |-> r, gam |-> g])
+           /\ phase' = "bsdone" /\ UNCHANGED J
+BSSolveFile == /\ phase = "bsfile" /\ info' = EsAnalyse(J) /\ phase' = "bsdone" /\ UNCHANGED J
+Next == Classify \/ BSExtend \/ BSSolve \/ BSSolveFile
 Spec == Init /\ [][Next]_vars
 
 -----------------------------------------------------------------------------
@@ -125,4 +159,48 @@ TwoRowsMinNorm == (Done /\ Len(J) = 2) =>
 SymmetricLemma == (Done /\ info.symmetric) => info.d2 = info.mean2
 
 Export == Done => PrintT(<<"SCN", ToJson(info)>>)
+
+-----------------------------------------------------------------------------
+(* Badly scaled family: what TLC checks about the symbolic analysis (sign   *)
+(* rule of EpsScale: comparisons hold for every small enough eps; equalities *)
+(* are identities of polynomials)                                           *)
+BSDone     == phase = "bsdone"
+BSM        == info.m
+BSG        == EsGram([J0 |-> info.J0, rho |-> info.rho, gam |-> info.gam])
+BSUnscaled == (\A i \in 1..info.m : info.rho[i] = 0) /\ (\A j \in 1..info.n : info.gam[j] = 0)
+\* d2 = d2num / d2den:  0 <= d2 <= |g0|^2 = total / m^2  and  d2 <= |row|^2
+BSMinNormSound ==
+    BSDone => /\ PSign(info.d2den) > 0 /\ PSign(info.d2num) >= 0
+              /\ PSign(PSub(PMul(info.total, info.d2den), PScale(BSM * BSM, info.d2num))) >= 0
+              /\ \A x \in 1..BSM : PSign(PSub(PMul(BSG[x][x], info.d2den), info.d2num)) >= 0
+              /\ info.stationary = (info.d2num = <<>>)
+BSObviousStationary ==
+    BSDone => /\ ((\E x \in 1..BSM : BSG[x][x] = <<>>) => info.stationary)
+              /\ ((\E x, y \in 1..BSM : info.rho[x] = info.rho[y] /\ BSG[x][x] # <<>>
+                                          /\ \A j \in 1..info.n : info.J0[x][j] = 0 - info.J0[y][j]) => info.stationary)
+BSHalfSpaceNotStationary ==
+    (BSDone /\ \E x \in 1..BSM : \A y \in 1..BSM : PSign(BSG[x][y]) > 0) => ~info.stationary
+\* two rows: the closed form of the segment, as an identity of polynomials
+BSTwoRowsMinNorm ==
+    (BSDone /\ BSM = 2) =>
+        LET dn == PSub(PAdd(BSG[1][1], BSG[2][2]), PScale(2, BSG[1][2]))
+            dt == PSub(PMul(BSG[1][1], BSG[2][2]), PMul(BSG[1][2], BSG[1][2]))
+        IN  IF PSign(PSub(BSG[1][2], BSG[1][1])) >= 0          \* <r1, r2> >= |r1|^2: the vertex r1
+            THEN PMul(info.d2num, <<1>>) = PMul(BSG[1][1], info.d2den)
+            ELSE IF PSign(PSub(BSG[1][2], BSG[2][2])) >= 0
+            THEN info.d2num = PMul(BSG[2][2], info.d2den)
+            ELSE PMul(info.d2num, dn) = PMul(dt, info.d2den)
+\* symmetric instances (equal row sums of G, identically in eps): the mean IS the minimum-norm point
+BSSymmetricLemma ==
+    (BSDone /\ info.symmetric) => PScale(BSM * BSM, info.d2num) = PMul(info.total, info.d2den)
+\* REFINEMENT: without scaling the analysis is the integer one of this module
+BSUnscaledAgrees ==
+    (BSDone /\ BSUnscaled /\ info.tr # <<>>) =>
+        LET G == Gram(info.J0) IN
+        /\ info.needP = 1 /\ Len(info.d2den) = 1 /\ Len(info.d2num) <= 1
+        /\ Frac(PCoef(info.d2num, 0), info.d2den[1]) = MinNormSq(G)
+        /\ info.stationary = Stationary(G) /\ info.symmetric = EqualRowSums(G)
+        /\ info.tr = <<TraceOf(G)>> /\ Frac(PCoef(info.total, 0), BSM * BSM) = Mean2(G)
+
+BSExport == (BSDone /\ ~BSUnscaled) => PrintT(<<"BSCN", ToJson(info @@ [cs |-> CValues])>>)
 =============================================================================
